@@ -141,6 +141,37 @@ theorem callInst_runs_with_self {C : Ctx} {rec : Oracle} {h : Expr} {name : Stri
   simp only [hf]
   rw [bind_ok ha]
 
+/-- a function `::f(args)` runs in a function walker: no receiver (`self` is unbound there, `eval_self_function`) -/
+theorem call_function_runs_unbound {C : Ctx} {rec : Oracle} {name : String} {args : List (String × Expr)}
+    {c c2 : Cfg} {f : Callable} {kw : List (String × Val)}
+    (ha : evalArgs rec args c = some (.ok (kw, c2)))
+    (hf : findCallable C (fun f => f.kind = .function ∧ f.name = name) = some f) :
+    evalStep C rec (.call .function name args) c = invoke rec .function f.body kw .none c2 := by
+  simp only [evalStep]
+  rw [bind_ok ha]
+  simp only [hf]
+
+/-- `NS::name(args)`: a bridge runs in a function walker (no receiver), a class-based operation in an operation
+    walker whose receiver is the empty handle -/
+theorem call_ns_runs {C : Ctx} {rec : Oracle} {k : CallKind} {ns name : String} {args : List (String × Expr)}
+    {c c2 : Cfg} {f : Callable} {kw : List (String × Val)}
+    (hk : k = .implicit ns ∨ k = .classOp ns ∨ k = .bridge ns)
+    (ha : evalArgs rec args c = some (.ok (kw, c2)))
+    (hf : resolveNs C ns name = some f) :
+    evalStep C rec (.call k name args) c =
+      invoke rec (match f.kind with | .bridge _ => .function | _ => .operation) f.body kw .none c2 := by
+  rcases hk with rfl | rfl | rfl <;>
+  · simp only [evalStep]
+    rw [bind_ok ha]
+    simp only [hf]
+    cases f.kind <;> rfl
+
+/-- inside the body of a class-based operation `self` reads as the empty handle -/
+theorem eval_self_classOp (C : Ctx) (rec : Oracle) (kw : List (String × Val)) (st : State) :
+    evalStep C rec .self { fr := mkFrame .operation kw .none, st := st }
+      = some (.ok (.none, { fr := mkFrame .operation kw .none, st := st })) :=
+  eval_self (by simp [mkFrame])
+
 theorem mkFrame_self (kind : WalkerKind) (kw : List (String × Val)) (self : Val) :
     (mkFrame kind kw self).self = self ∧ (mkFrame kind kw self).kind = kind ∧ (mkFrame kind kw self).ret = .none ∧
     (mkFrame kind kw self).env = [[]] := ⟨rfl, rfl, rfl, rfl⟩
@@ -495,15 +526,37 @@ theorem invoke_without_return_value {C : Ctx} {n : Nat} {kind : WalkerKind} {bod
     {kw : List (String × Val)} {self : Val} {c c' : Cfg} {o : Out}
     (hk : NotDerived kind)
     (hb : execBlock (run C n) body { fr := mkFrame kind kw self, st := c.st } = some (.ok (o, c')))
-    (ho : o = .normal ∨ o = .stop) :
+    (ho : o = .normal ∨ o = .stop ∨ o = .retBare) :
     invoke (run C n) kind body kw self c = some (.ok (.none, { fr := c.fr, st := c'.st })) := by
   have hp := presRet_execBlock (rfr_run C n) (presRet_run C n) body _ o c' hb hk
-  have hret : c'.fr.ret = .none := hp.2 (by rcases ho with rfl | rfl <;> simp)
+  have hret : c'.fr.ret = .none := hp.2 (by rcases ho with rfl | rfl | rfl <;> simp)
   have hrb : runBody (run C n) body { fr := mkFrame kind kw self, st := c.st } = some (.ok ((), c')) := by
     unfold runBody
     rw [bind_ok hb]
-    rcases ho with rfl | rfl <;> rfl
+    rcases ho with rfl | rfl | rfl <;> rfl
   rw [invoke_ok hrb, hret]
+
+/-- conversely: an invocation that delivers a value other than none executed a `return <expr>` -/
+theorem invoke_value_needs_return {C : Ctx} {n : Nat} {kind : WalkerKind} {body : Block}
+    {kw : List (String × Val)} {self : Val} {c c2 : Cfg} {v : Val} (hk : NotDerived kind)
+    (h : invoke (run C n) kind body kw self c = some (.ok (v, c2))) (hv : v ≠ .none) :
+    ∃ c', execBlock (run C n) body { fr := mkFrame kind kw self, st := c.st } = some (.ok (.ret, c')) ∧ v = c'.fr.ret := by
+  obtain ⟨c', hrb, hv', _⟩ := invoke_ok_inv h
+  unfold runBody at hrb
+  obtain ⟨o, c1, hb, hrest⟩ := bind_ok_inv hrb
+  have hp := presRet_execBlock (rfr_run C n) (presRet_run C n) body _ o c1 hb hk
+  have hc : c' = c1 := by
+    cases o <;> first
+      | (have : M.ret' () c1 = some (.ok ((), c')) := hrest
+         simp [M.ret'] at this; exact this.symm)
+      | (simp [fail] at hrest)
+  subst hc
+  by_cases ho : o = .ret
+  · subst ho; exact ⟨c', hb, hv'⟩
+  · exfalso
+    have := hp.2 ho
+    rw [hv', this] at hv
+    exact hv rfl
 
 /-! ### derived attributes -/
 
